@@ -263,6 +263,12 @@ def live_propagation_hazard(meta, inner):
     names = list(target.controllers)
     if inner[3] not in names:
         return False
+    if type(target).__name__ == "MultiCtl":
+        # the same, one step removed: a MultiCtl inside the embedded project assigns controllers of the modules it
+        # feeds; if one of those modules is named by a mapping the assignment travels up and down in the same way
+        fed = {x for x in target.out_links if x != -1}
+        if any(mp.module in fed for mp in meta.mappings.values):
+            return True
     number = names.index(inner[3]) + 1
     return any(mp.module == inner[1] and mp.controller == number for mp in meta.mappings.values)
 
